@@ -60,7 +60,11 @@ func timeLess(s1, n1, s2, n2 *Term) *Term {
 func (e *Engine) timeNow(g *Term) *StructV {
 	sec := e.newNondet("time.Now.sec", "bv", 64, BV(64), 0)
 	ns := e.newNondet("time.Now.ns", "bv", 64, BV(64), 0)
-	e.assume(And(Ult(ns, Const(64, nsPerS)), Sge(sec, c64(0)), Slt(sec, c64(1<<36))))
+	lo, hi := e.spec.ClockMin, e.spec.ClockMax
+	if lo == 0 && hi == 0 {
+		lo, hi = 1577836800, 4102444800 // 2020-01-01 .. 2100-01-01
+	}
+	e.assume(And(Ult(ns, Const(64, nsPerS)), Sge(sec, c64(lo)), Slt(sec, c64(hi))))
 	if e.lastNowSec != nil && !e.spec.NonMonotonicClock {
 		e.assume(Implies(g, Not(timeLess(sec, ns, e.lastNowSec, e.lastNowNs))))
 	}
